@@ -335,3 +335,11 @@ mod test {
         doubling_test_helper(P);
     }
 }
+
+#[cfg(curve25519_dalek_verif)]
+impl CachedPoint {
+    /// Verification hook: the four cached lanes.
+    pub(crate) fn verif_inner(&self) -> F51x4Reduced {
+        self.0
+    }
+}
